@@ -22,7 +22,7 @@ def _raised():
     from .engine import Raised
     return Raised
 
-from .values import (NONE, VBool, VConst, VDict, VExc, VInt, VList, VNone, VObj, VStr, VStream, VSymCache, VTuple,
+from .values import (NONE, VBool, VConst, VDict, VExc, VInt, VList, VNone, VObj, VSeg, VSList, VStr, VStream, VSymCache, VTuple,
                      Unsupported, lit)
 
 
@@ -85,6 +85,9 @@ def call_method(ex, st, recv, name, args, kwargs, node):
             yield recv.d.pop(args[0].conc, args[1] if len(args) > 1 else NONE), st
             return
         raise Unsupported(f"dict.{name}")
+    if isinstance(recv, VSList):
+        yield from seglist_method(ex, st, recv, name, args, kwargs, node)
+        return
     if isinstance(recv, VSymCache):
         yield from symcache_method(ex, st, recv, name, args, kwargs, node)
         return
@@ -113,6 +116,40 @@ def call_method(ex, st, recv, name, args, kwargs, node):
     if isinstance(recv, VTuple):
         raise Unsupported(f"tuple.{name}")
     raise Unsupported(f"method {name} on {recv!r}")
+
+
+def _seg_of(x):
+    if isinstance(x, VSeg):
+        return x.t
+    if isinstance(x, VStr) and x.conc is not None:
+        return iv(V.seg_id(x.conc))
+    raise Unsupported(f"list element {x!r}")
+
+
+def seglist_method(ex, st, recv, name, args, kwargs, node):
+    """list operations on a list of path segments of symbolic length (library contract of
+    list.append / list.pop / list.extend as functional updates of the element view)"""
+    if name in ("append", "pop", "extend", "reverse", "clear"):
+        ex.check_frame(st, recv, node)
+    v = recv.view
+    if name == "append":
+        one = V.fresh_str(st.ctx, "el", "segs")
+        st.ctx.add(one.len() == 1, one.a[0] == _seg_of(args[0]))
+        recv.view = V.concat(st.ctx, [v, VStr(one.a, 0, 1, kind="segs")], kind="segs")
+        yield NONE, st
+        return
+    if name == "pop" and not args:
+        n = v.len()
+        for kind, s2 in ex.raise_or_oblige(st, IndexError, n > 0, "pop-from-empty-list", node):
+            if kind == "ok":
+                r = s2.tr(recv)
+                last = VSeg(r.view.a[V.name_term(s2.ctx, r.view.hi - 1, "li")])
+                r.view = V.intern_view(s2.ctx, VStr(r.view.a, r.view.lo, V.name_term(s2.ctx, r.view.hi - 1, "li"), kind="segs"))
+                yield last, s2
+            else:
+                yield _raised()(VExc(IndexError)), s2
+        return
+    raise Unsupported(f"segment-list.{name}")
 
 
 def symcache_lookup(ex, st, cache, key, node):
@@ -405,8 +442,31 @@ def m_decode(ex, st, s, args, kwargs, node):
     raise Unsupported(f"decode({enc})")
 
 
+def m_split(ex, st, s, args, kwargs, node):
+    """str.split(<one character>): the list of segments, an opaque function of the text with at
+    least one element (library contract; join is its inverse)"""
+    sep = args[0]
+    if sep.conc is None or len(sep.conc) != 1 or len(args) > 1:
+        raise Unsupported("split with this separator")
+    if s.conc is not None:
+        yield as_seglist(st.ctx, VList([lit(x) for x in s.conc.split(sep.conc)])), st
+        return
+    key = ("split", sep.conc) + _skey(s)
+    m = _memo(st.ctx)
+    if key not in m:
+        v = V.fresh_str(st.ctx, "split", "segs")
+        st.ctx.add(v.len() >= 1)
+        m[key] = v
+    yield VSList(m[key], fresh=True), st
+
+
 def m_join(ex, st, s, args, kwargs, node):
     seq = args[0]
+    if isinstance(seq, VSList):
+        if s.conc is None:
+            raise Unsupported("join with symbolic separator")
+        yield opaque_str(st.ctx, f"join[{s.conc}]", seq.view), st
+        return
     if not isinstance(seq, (VList, VTuple)):
         raise Unsupported("join of symbolic sequence")
     parts = []
@@ -426,6 +486,7 @@ STR_METHODS = {
     "lstrip": m_lstrip, "rstrip": m_rstrip, "replace": m_replace, "lower": m_lower,
     "isascii": m_isascii, "isdigit": m_isdigit, "isalpha": m_isalpha, "startswith": m_startswith,
     "endswith": m_endswith, "encode": m_encode, "decode": m_decode, "join": m_join, "format": m_format,
+    "split": m_split,
 }
 
 
@@ -437,6 +498,8 @@ def b_len(ex, st, args, kwargs, node):
         yield VInt(v.len()), st
     elif isinstance(v, (VTuple, VList)):
         yield VInt(len(v.items)), st
+    elif isinstance(v, VSList):
+        yield VInt(v.view.len()), st
     elif isinstance(v, VDict):
         yield VInt(len(v.d)), st
     else:
@@ -752,7 +815,56 @@ def p_code_at(ex, st, args, kwargs, node):
             yield _raised()(VExc(IndexError)), s2
 
 
+def as_seglist(ctx, v):
+    if isinstance(v, VSList):
+        return v
+    if isinstance(v, (VList, VTuple)):
+        r = V.fresh_str(ctx, "segs", "segs")
+        ctx.add(r.len() == len(v.items))
+        for i, it in enumerate(v.items):
+            ctx.add(r.a[i] == _seg_of(it))
+        return VSList(VStr(r.a, 0, len(v.items), kind="segs"), fresh=getattr(v, "fresh", True))
+    raise Unsupported(f"segment list expected, got {v!r}")
+
+
+def _not_dot(t):
+    return z3.And(t != 1, t != 2)
+
+
+def p_segs_no_dots(ex, st, args, kwargs, node):
+    yield VBool(V.all_in(st.ctx, as_seglist(st.ctx, args[0]).view, _not_dot, "nodots")), st
+
+
+def p_segs_no_dots_upto(ex, st, args, kwargs, node):
+    v = as_seglist(st.ctx, args[0]).view
+    k = args[1].t
+    yield VBool(V.all_in(st.ctx, VStr(v.a, v.lo, V.name_term(st.ctx, v.lo + k, "up"), kind="segs"), _not_dot, "nodots")), st
+
+
+def p_segs_prefix_equal(ex, st, args, kwargs, node):
+    a, b, k = as_seglist(st.ctx, args[0]).view, as_seglist(st.ctx, args[1]).view, args[2].t
+    yield VBool(z3.And(a.len() == k, V.str_eq(st.ctx, a, VStr(b.a, b.lo, V.name_term(st.ctx, b.lo + k, "up"), kind="segs")))), st
+
+
+def p_segs_step(ex, st, args, kwargs, node):
+    """one step of RFC 3986 5.2.4 on the output stack: '..' removes the last output segment if
+    there is one, '.' changes nothing, any other segment is appended"""
+    ol, nw = as_seglist(st.ctx, args[0]).view, as_seglist(st.ctx, args[2]).view
+    e = _seg_of(args[1])
+    ctx = st.ctx
+    n = ol.len()
+    shorter = VStr(ol.a, ol.lo, V.name_term(ctx, ol.hi - 1, "sp"), kind="segs")
+    same = V.str_eq(ctx, nw, ol)
+    popped = V.str_eq(ctx, nw, shorter)
+    pre = VStr(nw.a, nw.lo, V.name_term(ctx, nw.hi - 1, "sp"), kind="segs")
+    pushed = z3.And(nw.len() == n + 1, V.str_eq(ctx, pre, ol), nw.a[V.name_term(ctx, nw.hi - 1, "sp")] == e)
+    yield VBool(z3.Or(z3.And(e == 2, n > 0, popped), z3.And(e == 2, n == 0, same), z3.And(e == 1, same),
+                      z3.And(e != 1, e != 2, pushed))), st
+
+
 SPEC_PRIMS = {
+    "segs_step": p_segs_step,
+    "segs_no_dots": p_segs_no_dots, "segs_no_dots_upto": p_segs_no_dots_upto, "segs_prefix_equal": p_segs_prefix_equal,
     "hash_parts": p_hash_parts,
     "CUT": p_cut,
     "first_of": p_first_of, "first_not_of": p_first_not_of, "last_index": p_last_index,
